@@ -60,6 +60,8 @@ def _mk_conn(client):
     c.match_rules = {}
     c.objHandler = objects.DBusObjectHandler(c)
     c.busName = ':1.7'
+    c._authenticated = True
+    c.factory = client.DBusClientFactory()
     c._receivedFDs = []
     return c
 
